@@ -202,6 +202,9 @@ def extract_params(model):
             "prule": rule(t.workplace_priority_rule), "due": t.due_time,
             "tin": [[ix(m.tix, x), int(d)] for x, d in t.input_task_list],
             "tout": [[ix(m.tix, x), int(d)] for x, d in t.output_task_list],
+            "sub": ([getattr(t, "file_path", None), repr(getattr(t, "unit_timedelta", None)),
+                     getattr(t, "read_json_file", "unset"), getattr(t, "remove_absence_time_list_flag", "unset")]
+                    if type(t).__name__ == "BaseSubProjectTask" else None),
         })
     workers = [None if w is None else {
         "team": idnum(w.team_id, "M"), "skill": sorted((k, num(v, Q)) for k, v in w.workamount_skill_mean_map.items()),
@@ -215,13 +218,18 @@ def extract_params(model):
     wps = [None if w is None else {
         "cap": num(w.max_space_size, 2), "inputs": [ix(m.pix, x) for x in w.input_workplace_list],
         "outputs": [ix(m.pix, x) for x in w.output_workplace_list],
+        "parent": ix(m.pix, w.parent_workplace),
         "facs": [ix(m.fix, f) for f in w.facility_list]} for w in m.wps]
     comps = [None if c is None else {
         "space": num(c.space_size, 2), "children": [ix(m.cix, x) for x in c.child_component_list],
         "parents": [ix(m.cix, x) for x in c.parent_component_list]} for c in m.comps]
+    teams = [None if t is None else {"parent": ix({id(x): i for i, x in enumerate(m.teams, 1)}, t.parent_team),
+                                      "workers": [ix(m.wix, w) for w in t.worker_list],
+                                      "targets": [ix(m.tix, x) for x in t.targeted_task_list]} for t in m.teams]
     proj = {"absL": list(p.absence_time_list), "autoAbs": bool(p.perform_auto_task_while_absence_time),
             "init": p.init_datetime.strftime("%Y-%m-%d %H:%M:%S"), "unit": p.unit_timedelta.total_seconds()}
     import json
-    raw = {"tasks": tasks, "workers": workers, "facs": facs, "wps": wps, "comps": comps, "project": proj}
+    raw = {"tasks": tasks, "workers": workers, "facs": facs, "wps": wps, "comps": comps, "project": proj,
+           "teams": teams}
     # canonical text per section: TLC compares them as strings (JSON null / floats do not deserialise)
     return {k: json.dumps(v, sort_keys=True) for k, v in raw.items()}
